@@ -40,8 +40,8 @@ func init() {
 		Old: "\t\tnext.ServeHTTP(mw, r)\n\t\tmw.Close()\n", New: "\t\tnext.ServeHTTP(mw, r)\n",
 		Rule: "R12.5", Construct: "M.Middleware"})
 	mutant(&Mutant{Name: "c12-writer-no-add", Property: "C12", File: "minify.go",
-		Old: "\tz := &writer{pw, sync.WaitGroup{}, false, nil}\n\tz.wg.Add(1)\n\tgo func() {\n\t\tdefer z.wg.Done()\n\t\tdefer pr.Close()\n\t\tif err := m.Minify(mediatype, w, pr); err != nil {",
-		New: "\tz := &writer{pw, sync.WaitGroup{}, false, nil}\n\tgo func() {\n\t\tz.wg.Add(1)\n\t\tdefer z.wg.Done()\n\t\tdefer pr.Close()\n\t\tif err := m.Minify(mediatype, w, pr); err != nil {",
+		Old:  "\tz := &writer{pw, sync.WaitGroup{}, false, nil}\n\tz.wg.Add(1)\n\tgo func() {\n\t\tdefer z.wg.Done()\n\t\tdefer pr.Close()\n\t\tif err := m.Minify(mediatype, w, pr); err != nil {",
+		New:  "\tz := &writer{pw, sync.WaitGroup{}, false, nil}\n\tgo func() {\n\t\tz.wg.Add(1)\n\t\tdefer z.wg.Done()\n\t\tdefer pr.Close()\n\t\tif err := m.Minify(mediatype, w, pr); err != nil {",
 		Rule: "R12.3", Construct: "M.Writer/goroutine"})
 }
 
